@@ -35,7 +35,10 @@ def gen_case(r):
     ops = []
     for i in range(n):
         ops += [("select", i), ("timeouts", tx_to, route_to)]
-        if r.random() < 0.35:
+        if r.random() < 0.2:
+            # multicast switched off (takes effect when the address is assigned: documented): routing goes another way
+            ops += [("allow_multicast=", False), ("node_address=", addrs[i])]
+        elif r.random() < 0.35:
             ops.append(("multicast_relay=", True))    # a multicast it receives is passed on one level down
     msgs = []
     for _ in range(r.randrange(1, 4)):
